@@ -98,6 +98,80 @@ def valid_corpus(rnd):
     return texts
 
 
+def families():
+    """Resource-shaped inputs, each a family over a size parameter: what grows with the input must grow in proportion,
+    what recurses must be bounded.  Every member is also run in a thread with a small stack."""
+    t = []
+    for n in (10, 30, 50, 60, 63, 64, 65, 80, 100, 150, 250, 400):
+        t.append("ldi r16, " + "-(1+" * n + "1" + ")" * n + "\n")
+        t.append("ldi r16, " + "low(-(" * n + "1" + "))" * n + "\n")
+        t.append("ldi r16, " + "(" * n + "1" + ")" * n + "\n")
+        t.append(".dw " + "~(2*" * n + "1" + ")" * n + "\n")
+        t.append("ldi r16, 1" + "+1" * n + "\n")
+        t.append("ldi r16, 1" + "".join(("+", "-", "*", "|", "<<", "==")[i % 6] + "1" for i in range(n)) + "\n")
+        t.append(".if 0\n.dw " + "(" * n + "1" + ")" * n + " ; a.b\n.endif\nnop\n")            # dotted lines of a skipped branch
+        t.append(".if 0\n#define X " + "-(1+" * n + "1" + ")" * n + "\n.endif\nnop\n")
+        t.append(".ifdef nothing\nlbl: .db " + "(" * n + "1" + ")" * n + ", \"a.b\"\n.else\nnop\n.endif\n")
+        t.append(".if 1\nnop\n.else\n.equ v = " + "-(" * n + "1" + ")" * n + "\n.endif\n")
+        t.append(".macro m\n.dw " + "(" * n + "@0" + ")" * n + "\n.endm\nm 1\n")
+        # character constants that look like the start of a comment or of a string must not switch the guard off
+        for ch in ("';'", "'\"'", "'('", "'\\''"):
+            t.append("ldi r16, " + ch + "+(" * n + "1" + ")" * n + "\n")
+            t.append(".db " + ch + ", " + "-(1+" * n + "1" + ")" * n + "\n")
+        t.append(".db \"" + "(" * n + "\", " + "(" * n + "1" + ")" * n + "\n")
+    for n in (100, 300, 1000, 3000, 10000):
+        # chains of definitions, defined before and after use, written in lower, upper and mixed case
+        t.append(".equ a0 = 1\n" + "".join(".equ a%d = a%d+1\n" % (i + 1, i) for i in range(n)) + "ldi r16, low(a%d)\n" % n)
+        t.append("ldi r16, low(a0)\n" + "".join(".equ a%d = a%d+1\n" % (i, i + 1) for i in range(n)) + ".equ a%d = 1\n" % n)
+        t.append("ldi r16, low(A0)\n" + "".join(".equ A%d = a%d+1\n" % (i, i + 1) for i in range(n)) + ".equ a%d = a5\n" % n)
+        t.append(".set a0 = 1\n" + "".join(".set a%d = a%d+1\n" % (i + 1, i) for i in range(n)) + ".dw a%d\n" % n)
+        t.append("".join("l%d: .dw l%d\n" % (i, i + 1) for i in range(n)) + "l%d: nop\n" % n)
+    for n in (20, 40, 60, 200):
+        for a, b in (("v", "v"), ("V", "V"), ("V", "v"), ("v", "V"), ("Val", "vAL")):
+            for op in ("+", "|", "*"):
+                t.append("".join(".equ %s%d = %s%d %s %s%d\n" % (a, i + 1, b, i, op, b, i) for i in range(n)) + ".equ %s0 = 1\n.dq %s%d\n" % (a, b, n))
+                t.append(".equ %s0 = 1\n" % a + "".join(".equ %s%d = (%s%d %s %s%d) & 0xffff\n" % (a, i + 1, b, i, op, a, i) for i in range(n)) + ".dw %s%d\n" % (b, n))
+    # macro expansion: the budget of calls is one per build, expansion is linear in what it produces
+    for dev in ("", ".device ATtiny13\n"):
+        t.append(dev + ".macro a\nnop\n.endm\n" + "".join(".macro %s\n%s\n.endm\n" % (chr(98 + i), "\n".join([chr(97 + i)] * 8)) for i in range(7)) + "h\n")
+        t.append(dev + ".macro a\nnop\nnop\nnop\nnop\n.endm\n.macro b\n" + "a\n" * 300 + ".endm\n.macro c\n" + "b\n" * 300 + ".endm\n" + "c\n" * 30)
+        t.append(dev + ".macro m\nnop\n.endm\n" + ("m\n" * 2000 + ".org pc+1\n") * 30)
+        t.append(dev + ".macro m\nnop\n.endm\n.macro k\n" + "m\n" * 1000 + ".endm\n" + ("k\n" * 40 + ".cseg\n.org pc + 2\n") * 12)
+        t.append(dev + ".macro m\n.dseg\n.byte 1\n.cseg\nnop\n.endm\n" + "m\n" * 20000)
+        t.append(dev + ".macro m\n.db " + "@0" * 20000 + "\n.endm\nm " + "1" * 20000 + "\n")
+        t.append(dev + ".macro m\n.db " + ",".join(["@0"] * 16000) + "\n.endm\nm " + "+".join(["1"] * 8000) + "\n")
+        t.append(dev + ".macro m\n.db " + "@0@1@2@3@4@5@6@7@8@9" * 3000 + "\n.endm\nm " + ", ".join(["1" * 6000] * 10) + "\n")
+        t.append(dev + "nop\n" * 30000)
+        t.append(dev + ".db " + ", ".join(["1"] * 30000) + "\n")
+    return t
+
+
+def hostile_trees():
+    """File trees for build_file: inclusion that never ends, files that never end, things that are not files."""
+    trees = []
+    trees.append(({"main.asm": ".include \"main.asm\"\nnop\n"}, "main.asm"))
+    trees.append(({"main.asm": "nop\n.include \"a.inc\"\n", "a.inc": "nop\n.include \"b.inc\"\n", "b.inc": ".include \"a.inc\"\n"}, "main.asm"))
+    trees.append(({"main.asm": ".include \"sub/a.inc\"\n", "sub/a.inc": ".include \"a.inc\"\nnop\n"}, "main.asm"))
+    trees.append(({"main.asm": ".macro m\n.include \"a.inc\"\n.endm\nm\n", "a.inc": "nop\nm\n"}, "main.asm"))
+    trees.append(({"main.asm": ".if 1\n.include \"main.asm\"\n.endif\n"}, "main.asm"))
+    trees.append(({"main.asm": ".include \"/dev/zero\"\nnop\n"}, "main.asm"))
+    trees.append(({"main.asm": ".include \"/dev/urandom\"\nnop\n"}, "main.asm"))
+    trees.append(({"main.asm": ".include \"/\"\nnop\n"}, "main.asm"))
+    trees.append(({"main.asm": ".include \".\"\nnop\n"}, "main.asm"))
+    trees.append(({"main.asm": ".include \"\"\nnop\n"}, "main.asm"))
+    trees.append(({"main.asm": ".includepath \"/dev\"\n.include \"zero\"\n"}, "main.asm"))
+    trees.append(({"main.asm": "".join(".include \"i%d.inc\"\n" % i for i in range(200)), **{"i%d.inc" % i: "nop\n" for i in range(200)}}, "main.asm"))
+    trees.append(({"main.asm": ".include \"i0.inc\"\n", **{"i%d.inc" % i: "nop\n.include \"i%d.inc\"\n" % (i + 1) for i in range(20)}, "i20.inc": "nop\n"}, "main.asm"))
+    trees.append(({"main.asm": ".include \"i0.inc\"\n", **{"i%d.inc" % i: "nop\n.include \"i%d.inc\"\n" % (i + 1) for i in range(400)}, "i400.inc": "nop\n"}, "main.asm"))
+    trees.append(({}, "/dev/zero"))
+    trees.append(({}, "/"))
+    trees.append(({}, ""))
+    return trees
+
+
+SMALL_STACK = 256 << 10     # bytes; the harness is optimised, its frames are an order of magnitude smaller than those of a debug build
+
+
 def mutate(rnd, text):
     kind = rnd.randrange(8)
     b = bytearray(text.encode("utf-8"))
@@ -176,11 +250,29 @@ def check(prop, tier, seed):
             oc = classify(cres[j])
             events.append({"ev": "case", "outcome": oc})
             details.append([{"src": t, "outcome": oc, "text": cres[j].get("text", "")}])
+        # resource-shaped families and the valid corpus in a thread with a small stack; hostile file trees
+        fam = families()
+        small = fam + valid_corpus(random.Random(seed))
+        sres = run_jobs([{"k": "str", "id": j, "src": t, "nohex": True, "stack": SMALL_STACK} for j, t in enumerate(small)], watchdog=WATCHDOG, as_bytes=AS_LIMIT)
+        for j, t in enumerate(small):
+            oc = classify(sres[j])
+            events.append({"ev": "case", "outcome": oc})
+            details.append([{"src": t if len(t) < 2000 else t[:2000] + "...", "outcome": oc,
+                             "text": "thread with a %d KiB stack; %s" % (SMALL_STACK >> 10, sres[j].get("text", ""))}])
+        trees = hostile_trees()
+        tjobs = []
+        for j, (files, main) in enumerate(trees):
+            tjobs.append({"k": "file", "id": j, "root": scratch.sub("tree%d" % j), "files": files, "cwd": "", "main": main, "paths": []})
+        tres = run_jobs(tjobs, watchdog=WATCHDOG, as_bytes=AS_LIMIT, workers=4)
+        for j, (files, main) in enumerate(trees):
+            oc = classify(tres[j])
+            events.append({"ev": "case", "outcome": oc})
+            details.append([{"src": "build_file(%r) in a directory with %s" % (main, json.dumps(files)[:1500]), "outcome": oc, "text": tres[j].get("text", "")}])
         nprod = sum(e.get("count", 1) for e in events)
         # multi-line: token soups and mutations of valid programs
         texts = soups(rnd, heads, dct, 4000 if tier == "quick" else 100000)
         corpus = valid_corpus(rnd)
-        texts += corpus
+        texts += corpus + fam
         for _ in range(12000 if tier == "quick" else 300000):
             texts.append(mutate(rnd, rnd.choice(corpus)))
         mres = run_jobs([{"k": "str", "id": j, "src": t, "nohex": True} for j, t in enumerate(texts)], watchdog=WATCHDOG, as_bytes=AS_LIMIT)
@@ -232,10 +324,13 @@ def check(prop, tier, seed):
             "rule": "bounded-exhaustive: every single-line program `head op, ...` with up to %d operands from the %d-entry dictionary for each of the %d heads "
                     "(Api!Heads x Api!Dict, exported by TLC; completeness of every group checked by TLC); every head with at most one operand in each of "
                     "the contexts of Api!Contexts (skipped branch, assembled branch, .elif position, macro body, other segments, small devices); "
-                    "resource hogs under small devices in a 48 MiB address space; plus %d multi-line texts: token soups, "
+                    "resource hogs under small devices in a 48 MiB address space; size-parameterised families (nesting, operator chains, guard-fooling character constants, "
+                    "chains of definitions in every letter case, doubling definitions, macro fan-out, substitution blow-up) and the valid corpus once more in a thread with a small stack; "
+                    "file trees that include themselves, /dev/zero, directories; plus %d multi-line texts: token soups, "
                     "valid programs (repository fixtures and generated), seeded byte/token/line mutations of them up to 64 KiB, and hand-made "
                     "resource hogs; non-trivial = has at least one operand / is not blank; distinct counted on source text" % (arity, len(dct), len(heads), len(texts)),
-            "single_line_programs": nprod, "context_programs": len(ctx_texts), "small_device_resource_hogs": len(hogs), "multi_line_texts": len(texts), "heads": len(heads), "dictionary": len(dct), "arity": arity,
+            "single_line_programs": nprod, "context_programs": len(ctx_texts), "small_device_resource_hogs": len(hogs), "multi_line_texts": len(texts),
+            "small_stack_programs": len(small), "small_stack_bytes": SMALL_STACK, "resource_families": len(fam), "hostile_file_trees": len(trees), "heads": len(heads), "dictionary": len(dct), "arity": arity,
             "groups_judged": sum(1 for e in events if e["ev"] == "group"), "tlc": stats,
             "slower_than_5s": slow, "limits": {"address_space_bytes": AS_LIMIT, "watchdog_s": WATCHDOG},
             "rejected_events": len([i for i in rejected if i < len(events)]),
